@@ -9,6 +9,7 @@ hash, shrinking flags, returns restore) are proved for all step sequences, and t
 for every reachable state. (helpers: Proofs/WitnessFrames.lean, Proofs/WitnessExec.lean)
 -/
 import NeoModel.Proofs.WitnessExec
+import NeoModel.Proofs.WitnessTry
 import NeoModel.Model.Witness.Wiring
 import NeoModel.Generated.WitnessFrames
 import NeoModel.Props.C15
@@ -177,6 +178,55 @@ theorem flags_only_shrink {v : VM} (h : Exec v) (s : SC) (rest : List SC) (hv : 
 -- a dynamic script loaded by a contract that was itself called with ReadStates|AllowNotify: only ReadStates is left
 example : ((VM.empty.run [.loadWithFlags 0xE0 fAll, .contractCall 0xC2 (fReadStates ||| fAllowCall ||| fAllowNotify) false false,
       .runtimeLoadScript 0xD1 fAll]).toOption.bind (·.flags)) = some fReadOnly := by decide
+
+/-! ### 2b. Exceptions: the unwinding depth is computed from the try stacks -/
+
+/-- C15-frames-8. THROW (and an ENDFINALLY that re-throws): the contexts popped are exactly those above the
+first context — from the top — that has a handler still in its try block, or in its catch block with a
+finally to run (`handlerDepth`); that context keeps its script context and everything below it is untouched,
+try stacks included; without such a context the VM faults. -/
+theorem throw_pops_to_first_handler {t t' : VMT} (h : t.step .throw = .ok t') :
+    ∃ n, handlerDepth t.ctxs = some n ∧ n < t.ctxs.length ∧
+      t'.base.istack = t.base.istack.drop n ∧ t'.ctxs.tail = t.ctxs.drop (n + 1) := by
+  simp only [VMT.step] at h
+  split at h
+  · cases h
+  · rename_i cs p hh
+    cases h
+    obtain ⟨n, h1, h2, h3, h4⟩ := handle_spec _ _ _ hh
+    exact ⟨n, h1, h2, by simpa [VMT.base] using h3, h4⟩
+
+theorem throw_unhandled_iff (t : VMT) : t.step .throw = .error .unhandled ↔ handlerDepth t.ctxs = none := by
+  simp only [VMT.step]
+  rw [← handle_none_iff]
+  cases handle t.ctxs <;> simp
+
+/-- C15-frames-9. Every step of the machine with exceptions — TRY, ENDTRY, ENDFINALLY, THROW or a step of the
+frame machine — is on the script contexts a run of the frame machine (the step itself, nothing, or an
+unwinding of the computed depth). Hence states reached with exceptions are `Exec` / `Honest` states and
+every theorem of this file holds in them: exceptions cannot forge a calling hash, an entry hash, a flag or
+the CalledByEntry relation. -/
+theorem exec_with_exceptions (ops : List TOp) (t : VMT)
+    (hall : TAllAlong (fun v op => op.honest v ∧ op.entryOrInterop v) VMT.empty ops)
+    (hr : VMT.empty.run ops = .ok t) : Exec t.base ∧ Honest t.base :=
+  have hx : Exec t.base :=
+    reach_trun (P := fun v op => op.honest v ∧ op.entryOrInterop v)
+      (fun _ _ => ⟨trivial, Or.inr rfl⟩) ops (t := VMT.empty) Reach.empty hall hr
+  ⟨hx, hx.honest⟩
+
+-- entry (TRY catch) -> dynamic script (TRY finally only) -> contract that throws: the finally block of the
+-- dynamic script runs first (one context popped, exception pending), its ENDFINALLY re-throws and the
+-- entry script's catch takes it (one more popped); after the catch block's ENDTRY the entry's try stack is empty
+example : (VMT.empty.run [.base (.loadWithFlags 0xE0 fAll), .try_ true false,
+      .base (.runtimeLoadScript 0xD1 fAll), .try_ false true, .base (.contractCall 0xC1 fAll false false),
+      .throw]).toOption.map (fun t => (t.base.istack.length, t.pending))
+    = some (2, true) := by decide
+example : (VMT.empty.run [.base (.loadWithFlags 0xE0 fAll), .try_ true false,
+      .base (.runtimeLoadScript 0xD1 fAll), .try_ false true, .base (.contractCall 0xC1 fAll false false),
+      .throw, .endFinally, .endTry]).toOption
+    = some ⟨[(.root ⟨0xE0, 0, fAll⟩, [])], false⟩ := by decide
+example : VMT.empty.run [.base (.loadWithFlags 0xE0 fAll), .base (.contractCall 0xC1 fAll false false), .throw]
+    = .error .unhandled := by decide
 
 /-! ### 3. The witness check over executions -/
 
